@@ -26,12 +26,19 @@ func init() {
 			"Values: scenarios with several LIVE values sharing backing arrays - copies by assignment, prefixes / sub-slices of a larger set, longer earlier snapshots, library results, the raw array around a value - made in 12 ways " +
 			"(exact, spare capacity, grown by append, single Adds, NewSortedInts with repeats, after Remove, after in-place Union ...): every ordered pair of single mutations on two copies of one parent, and seeded forests of values mixing copies, mutators and functions whose results join the forest; " +
 			"after EVERY call all live values are compared with what they read before (cells inside the receiver's own array that a mutator may rewrite in place - Remove: its elements; Add and a fitting Union method: up to its capacity - are recorded, not judged). " +
+			"Numeric extremes inside otherwise ordinary sets (differences and sums of elements, of an element and a candidate 0..n-1 of Complement, of an element and the x of Remove / ContainsSingle do not fit in an int): " +
+			"all pairs of subsets of {MinInt, MinInt+1, -1, 0, MaxInt-1, MaxInt} (thorough: with 1, -2^62-1 and 2^62) for every two-operand function and the Union method (every kind of spare capacity, aliased), " +
+			"every argument list (len<=3, thorough 4) over {MinInt, MinInt+1, -1, 0, 1, MaxInt-1, MaxInt} for Add on every receiver made of limits of int and for NewSortedInts, Remove / ContainsSingle of every x at and next to the elements on all subsets of a 9-element universe of extremes, " +
+			"Complement(n<=6, a) for all subsets a of {MinInt, MinInt+1, -1, 0..4, MaxInt-1, MaxInt}, ints.Sort on every sequence (len<=5, thorough 7) over the same seven values and on three patterns of values at the limits of int for every length 0..3000 (also through the heapsort entry), " +
+			"seeded sets and seeded Add/Remove/Union histories whose elements are spread over the whole int range (limits of int, +-2^62, +-2^53, +-2^32, +-2^31 and their neighbours, arbitrary 64-bit values, small values) through every function, as receiver and as every argument; " +
+			"the evidence counts, per function, the calls whose operands hold MinInt / MaxInt / two elements whose difference overflows (extremes:<function>:...). " +
 			"non-trivial = binary case whose operands properly overlap (a-b, b-a and a&b all non-empty), Add/NewSortedInts list with a repeated or already present element plus a new one, Range with >= 2 elements, sort input longer than 12 that is not already sorted, " +
 			"pair of operands in two different representations, scenario in which a mutator ran while another live value shared the receiver's array; distinct = enumeration without repetition or hash of the operands",
 		Assumptions: []string{
-			"oracle: map[int]bool with the literal definitions of the set operations, cross-checked against bit-mask arithmetic; sort.Ints of the standard library for ints.Sort",
+			"oracle: map[int]bool with the literal definitions of the set operations, cross-checked against bit-mask arithmetic (on a small universe and on one made of the limits of int); sort.Ints of the standard library for ints.Sort; " +
+				"model, comparisons and generators order values by comparison only and never subtract or add two elements, so they are right where differences and sums of elements overflow",
 			"Range(start,end,step) is read as documented: the elements start + i*step (i >= 0) from start (inclusive) towards end (exclusive), returned increasing; the three 'Infinite set' conditions of the code must panic; start == end is the empty set",
-			"Complement(n, a) for n < 0 is not fixed by the documentation and not exercised; Range is exercised up to the limits of int with small results only",
+			"Complement(n, a) for n < 0 is not fixed by the documentation and not exercised; n near MaxInt is not affordable (the result has n-|a| elements): sets a holding the limits of int are exercised with small n only; Range is exercised up to the limits of int with small results only",
 			"the property speaks about sets: nil, empty non-nil and empty-with-capacity slices all are the empty set and must be treated alike as arguments; which of them a function returns for an empty result is recorded, not judged",
 			"'mutators change only their receiver' between values that share a backing array is read the way the unchanged library itself requires for Remove and the Union method: " +
 				"a mutator (Add, Remove, the Union method) may rewrite any cell of its receiver's own backing array up to its capacity (Remove shifts the receiver's elements, the Union method merges in place when the result fits, " +
@@ -50,6 +57,22 @@ func init() {
 			"reps:pairs_of_empty_sets_one_nil_one_non_nil", "reps:empty_library_result_fed_back_as_argument", "reps:nil_receiver", "reps:nil_argument_list",
 			"values:copies_by_assignment", "values:other_values_compared", "values:mutations_while_another_live_value_shares_the_array",
 			"values:Add_on_receiver_whose_spare_capacity_is_read_by_another_live_value", "values:value_sharing_the_array_intact_after_in_place_Remove", "values:Union_method_that_cannot_be_done_in_place",
+			// numeric extremes inside ordinary sets: every function saw operands holding MinInt, holding MaxInt, and with two elements whose difference overflows
+			"extremes:Union:difference_of_two_elements_overflows", "extremes:Union:MinInt_among_the_elements", "extremes:Union:MaxInt_among_the_elements",
+			"extremes:Intersection:difference_of_two_elements_overflows", "extremes:Intersection:MinInt_among_the_elements", "extremes:Intersection:MaxInt_among_the_elements",
+			"extremes:IntersectionSize:difference_of_two_elements_overflows", "extremes:IntersectionSize:MinInt_among_the_elements", "extremes:IntersectionSize:MaxInt_among_the_elements",
+			"extremes:SetMinus:difference_of_two_elements_overflows", "extremes:SetMinus:MinInt_among_the_elements", "extremes:SetMinus:MaxInt_among_the_elements",
+			"extremes:XOR:difference_of_two_elements_overflows", "extremes:XOR:MinInt_among_the_elements", "extremes:XOR:MaxInt_among_the_elements",
+			"extremes:ContainsSorted:difference_of_two_elements_overflows", "extremes:ContainsSorted:MinInt_among_the_elements", "extremes:ContainsSorted:MaxInt_among_the_elements",
+			"extremes:Union_method:difference_of_two_elements_overflows", "extremes:Union_method:MinInt_among_the_elements", "extremes:Union_method:MaxInt_among_the_elements",
+			"extremes:Add:difference_of_two_elements_overflows", "extremes:Add:MinInt_among_the_elements", "extremes:Add:MaxInt_among_the_elements",
+			"extremes:NewSortedInts:difference_of_two_elements_overflows", "extremes:NewSortedInts:MinInt_among_the_elements", "extremes:NewSortedInts:MaxInt_among_the_elements",
+			"extremes:Remove:difference_of_two_elements_overflows", "extremes:Remove:MinInt_among_the_elements", "extremes:Remove:MaxInt_among_the_elements",
+			"extremes:ContainsSingle:difference_of_two_elements_overflows", "extremes:ContainsSingle:MinInt_among_the_elements", "extremes:ContainsSingle:MaxInt_among_the_elements",
+			"extremes:Complement:difference_of_two_elements_overflows", "extremes:Complement:a_holds_MinInt_and_elements_of_0..n-1", "extremes:Complement:a_holds_MaxInt_and_elements_of_0..n-1",
+			"extremes:ints.Sort:difference_of_two_elements_overflows", "extremes:ints.Sort:MinInt_among_the_elements", "extremes:ints.Sort:MaxInt_among_the_elements",
+			"extremes:ints.Sort(heapsort/quicksort entry, longer than 12):difference_of_two_elements_overflows",
+			"extremes:history:difference_of_two_elements_overflows",
 		},
 	})
 }
@@ -139,7 +162,12 @@ type mon struct {
 	c     *engine.Ctx
 	bad   map[string]int // violations per API and input class in this unit (cascade control)
 	class string         // input class of the case being judged (e.g. Range: ascending / descending)
+	// ntFilter (when set) restricts which cases of a sweep count as non-trivial: a second exhaustive sweep that
+	// overlaps an earlier one only counts the cases the earlier one cannot contain
+	ntFilter func(operands ...[]int) bool
 }
+
+func (m *mon) ntOK(operands ...[]int) bool { return m.ntFilter == nil || m.ntFilter(operands...) }
 
 func newMon(c *engine.Ctx) *mon { return &mon{c: c, bad: map[string]int{}} }
 
@@ -221,7 +249,7 @@ func (m *mon) binary(a, b []int, spareA, spareB int, small bool) {
 		m.unionMethod(a, b, sp, spareB, wit)
 	}
 	if small || len(a) < 200 {
-		if properOverlap(A, B) {
+		if properOverlap(A, B) && m.ntOK(a, b) {
 			if small {
 				c.NTDistinct(1)
 			} else {
@@ -245,6 +273,7 @@ func (m *mon) binaryOn(a, b []int, mk func() (*emb, *emb), wit string, detail in
 		f    func(x, y sortints.SortedInts) sortints.SortedInts
 		want refset.Set
 	}
+	wide := spreadOf(a, b)
 	for _, o := range []fn{
 		{"Union", sortints.Union, refset.Union(A, B)},
 		{"Intersection", sortints.Intersection, refset.Inter(A, B)},
@@ -258,6 +287,7 @@ func (m *mon) binaryOn(a, b []int, mk func() (*emb, *emb), wit string, detail in
 		pi := c.Call(o.name+"|"+wit, func() { got = o.f(ea.s, eb.s) })
 		c.Eval(1)
 		c.Obs("op:"+o.name, 1)
+		wide.note(c, o.name)
 		if pi != nil {
 			m.viol(o.name, "panic", wit+"|"+engine.SiteNoLine(pi.Site), detail, pi.String(), show(o.want.Sorted()))
 			fresh()
@@ -278,6 +308,7 @@ func (m *mon) binaryOn(a, b []int, mk func() (*emb, *emb), wit string, detail in
 		pi := c.Call("IntersectionSize|"+wit, func() { got = sortints.IntersectionSize(ea.s, eb.s) })
 		c.Eval(1)
 		c.Obs("op:IntersectionSize", 1)
+		wide.note(c, "IntersectionSize")
 		want := len(refset.Inter(A, B))
 		if pi != nil {
 			m.viol("IntersectionSize", "panic", wit+"|"+engine.SiteNoLine(pi.Site), detail, pi.String(), fmt.Sprint(want))
@@ -293,6 +324,7 @@ func (m *mon) binaryOn(a, b []int, mk func() (*emb, *emb), wit string, detail in
 		pi := c.Call("ContainsSorted|"+wit, func() { got = sortints.ContainsSorted(ea.s, eb.s) })
 		c.Eval(1)
 		c.Obs("op:ContainsSorted", 1)
+		wide.note(c, "ContainsSorted")
 		want := refset.Subset(B, A)
 		if pi != nil {
 			m.viol("ContainsSorted", "panic", wit+"|"+engine.SiteNoLine(pi.Site), detail, pi.String(), fmt.Sprint(want))
@@ -330,6 +362,7 @@ func (m *mon) unionMethodOn(a, b []int, er, eb *emb, w string, detail interface{
 	pi := c.Call("Union_method|"+w, func() { s.Union(eb.s) })
 	c.Eval(1)
 	c.Obs("op:Union_method", 1)
+	spreadOf(a, b).note(c, "Union_method")
 	if pi != nil {
 		m.viol("Union_method", "panic", w+"|"+engine.SiteNoLine(pi.Site), detail, pi.String(), show(want.Sorted()))
 		return false
@@ -440,6 +473,7 @@ func (m *mon) addOn(recv, args []int, er, ex *emb, wit string, detail interface{
 	pi := c.Call("Add|"+wit, func() { s.Add(ex.s...) })
 	c.Eval(1)
 	c.Obs("op:Add", 1)
+	spreadOf(recv, args).note(c, "Add")
 	if repPresent {
 		c.Obs("Add:args_repeated_and_present", 1)
 	}
@@ -479,7 +513,7 @@ func (m *mon) addOn(recv, args []int, er, ex *emb, wit string, detail interface{
 	if er.changed(er.s, len(recv)) != "" {
 		c.Obs("Add:cells_of_the_receiver's_own_array_rewritten(not judged)", 1)
 	}
-	if (rep || present) && isNew {
+	if (rep || present) && isNew && m.ntOK(recv, args) {
 		if small {
 			c.NTDistinct(1)
 		} else {
@@ -509,6 +543,7 @@ func (m *mon) newSortedOn(args []int, ex *emb, wit string, small bool) {
 	pi := c.Call("NewSortedInts|"+wit, func() { got = sortints.NewSortedInts(ex.s...) })
 	c.Eval(1)
 	c.Obs("op:NewSortedInts", 1)
+	spreadOf(args).note(c, "NewSortedInts")
 	if pi != nil {
 		m.viol("NewSortedInts", "panic", wit+"|"+engine.SiteNoLine(pi.Site), detail, pi.String(), show(want.Sorted()))
 		return
@@ -523,7 +558,7 @@ func (m *mon) newSortedOn(args []int, ex *emb, wit string, small bool) {
 		m.viol("NewSortedInts", "result-aliases-argument", wit, detail, "the result shares memory with the argument list", "a new SortedInts")
 		return
 	}
-	if len(want) < len(args) && len(want) >= 2 {
+	if len(want) < len(args) && len(want) >= 2 && m.ntOK(args) {
 		if small {
 			c.NTDistinct(1)
 		} else {
@@ -549,6 +584,7 @@ func (m *mon) removeAndContainsOn(recv []int, x int, mk func() *emb, wit string,
 		pi := c.Call("ContainsSingle|"+wit, func() { got = sortints.ContainsSingle(ea.s, x) })
 		c.Eval(1)
 		c.Obs("op:ContainsSingle", 1)
+		spreadOf(recv, []int{x}).note(c, "ContainsSingle")
 		if pi != nil {
 			m.viol("ContainsSingle", "panic", wit+"|"+engine.SiteNoLine(pi.Site), detail, pi.String(), fmt.Sprint(R[x]))
 		} else if got != R[x] {
@@ -565,6 +601,7 @@ func (m *mon) removeAndContainsOn(recv []int, x int, mk func() *emb, wit string,
 		pi := c.Call("Remove|"+wit, func() { s.Remove(x) })
 		c.Eval(1)
 		c.Obs("op:Remove", 1)
+		spreadOf(recv, []int{x}).note(c, "Remove")
 		if pi != nil {
 			m.viol("Remove", "panic", wit+"|"+engine.SiteNoLine(pi.Site), detail, pi.String(), show(want.Sorted()))
 			return
@@ -604,14 +641,30 @@ func (m *mon) complementOn(n int, a []int, ea *emb, wit string) {
 	pi := c.Call("Complement|"+wit, func() { got = sortints.Complement(n, ea.s) })
 	c.Eval(1)
 	c.Obs("op:Complement", 1)
-	outside := false
+	outside, inside := false, false
 	for _, v := range a {
 		if v < 0 || v >= n {
 			outside = true
+		} else {
+			inside = true
 		}
 	}
 	if outside {
 		c.Obs("Complement:a_has_elements_outside_0..n-1", 1)
+	}
+	// the candidates 0..n-1 are compared with every element of a: they are operands of the scan like a itself
+	if n > 0 {
+		spreadOf(a, []int{0, n - 1}).note(c, "Complement")
+	} else {
+		spreadOf(a).note(c, "Complement")
+	}
+	if inside && len(a) > 0 {
+		if a[0] == minInt {
+			c.Obs("extremes:Complement:a_holds_MinInt_and_elements_of_0..n-1", 1)
+		}
+		if a[len(a)-1] == maxInt {
+			c.Obs("extremes:Complement:a_holds_MaxInt_and_elements_of_0..n-1", 1)
+		}
 	}
 	if pi != nil {
 		m.viol("Complement", "panic", wit+"|"+engine.SiteNoLine(pi.Site), detail, pi.String(), show(want.Sorted()))
@@ -715,10 +768,12 @@ func (m *mon) sortCase(kind string, depth int, data []int, label string) {
 	if depth < 0 {
 		pi = c.Call(api+"|"+wit, func() { ints.Sort(a) })
 		c.Obs("sort:Sort", 1)
+		spreadOf(data).note(c, "ints.Sort")
 	} else {
 		pi = c.Call(api+"|"+wit, func() { ints.VerifQuickSortDepth(a, depth) })
 		if len(data) > 12 {
 			c.Obs("sort:heapsort_entry", 1)
+			spreadOf(data).note(c, "ints.Sort(heapsort/quicksort entry, longer than 12)")
 		}
 	}
 	c.Eval(1)
@@ -747,7 +802,9 @@ func (m *mon) sortCase(kind string, depth int, data []int, label string) {
 	}
 }
 
-var patterns = []string{"random", "sorted", "reversed", "organ-pipe", "few-distinct", "sawtooth", "all-equal", "random-small-range", "nearly-sorted", "pipe-organ-inverted", "killer-median3"}
+var patterns = []string{"random", "sorted", "reversed", "organ-pipe", "few-distinct", "sawtooth", "all-equal", "random-small-range", "nearly-sorted", "pipe-organ-inverted", "killer-median3",
+	// values at and around the limits of int (differences and sums of elements overflow)
+	"limits-of-int-few-distinct", "whole-int-range", "limits-of-int-with-offsets-among-small-values"}
 
 func genPattern(p string, n int, rg *engine.Rng) []int {
 	a := make([]int, n)
@@ -807,6 +864,35 @@ func genPattern(p string, n int, rg *engine.Rng) []int {
 			if n > 1 {
 				i, j := rg.Intn(n), rg.Intn(n)
 				a[i], a[j] = a[j], a[i]
+			}
+		}
+	case "limits-of-int-few-distinct":
+		pal := []int{minInt, minInt + 1, -1, 0, 1, maxInt - 1, maxInt}
+		d := 2 + rg.Intn(len(pal)-1)
+		off := rg.Intn(len(pal))
+		// evenly spread, or one value dominating with a few others around it (the skewed-duplicates branch of the pivot step)
+		dom := []float64{0, 0, 0.8, 0.93}[rg.Intn(4)]
+		domv := pal[rg.Intn(len(pal))]
+		for i := range a {
+			if rg.Bool(dom) {
+				a[i] = domv
+			} else {
+				a[i] = pal[(off+rg.Intn(d))%len(pal)]
+			}
+		}
+	case "whole-int-range":
+		for i := range a {
+			a[i] = int(rg.U64())
+		}
+	case "limits-of-int-with-offsets-among-small-values":
+		for i := range a {
+			switch rg.Intn(4) {
+			case 0:
+				a[i] = minInt + rg.Intn(n+1)
+			case 1:
+				a[i] = maxInt - rg.Intn(n+1)
+			default:
+				a[i] = rg.Intn(2*n+1) - n
 			}
 		}
 	case "killer-median3":
@@ -1160,6 +1246,9 @@ func run(c *engine.Ctx) {
 
 	// 9. sorting
 	sortUnits(c)
+
+	// 10. numeric extremes inside otherwise ordinary sets, every function (extremes.go)
+	extremeUnits(c)
 }
 
 // breathing: see run().
@@ -1278,23 +1367,38 @@ type bystander struct {
 // mutations, comparing it with the model after every step; results of
 // non-mutating functions computed along the way ("bystanders") must stay
 // what they were.
-func (m *mon) history(idx int) {
+func (m *mon) history(idx int) { m.historyOn(idx, false) }
+
+// historyOn: wide = the values come from a table of span+4 distinct ints spread over the whole int range
+// (limits of int, +-2^62, +-2^32, +-2^31 and their neighbours, small values; see wideTable) instead of a small interval.
+func (m *mon) historyOn(idx int, wide bool) {
 	c := m.c
 	m.class = ""
 	if m.muted("history") {
 		return
 	}
-	rg := c.Rand("history", idx)
+	name := "history"
+	if wide {
+		name = "widehistory"
+	}
+	rg := c.Rand(name, idx)
 	span := 4 + rg.Intn(60)
 	steps := 20 + rg.Intn(100)
-	initial := randSet(rg, span/2, span)
+	val := func() int { return rg.Intn(span+4) - 2 }
+	set := func(maxLen int) []int { return randSet(rg, maxLen, span) }
+	if wide {
+		tab := wideTable(rg, span+4)
+		val = func() int { return tab[rg.Intn(len(tab))] }
+		set = func(maxLen int) []int { return subsetOfTable(rg, tab, rg.Intn(maxLen+1)) }
+	}
+	initial := set(span / 2)
 	spare := []int{0, 0, 3, 40}[rg.Intn(4)]
 	er := embed(initial, spare)
 	s := er.s
 	model := refset.Of(initial...)
 	var log []string
 	var bys []bystander
-	key := fmt.Sprintf("history#%d", idx)
+	key := fmt.Sprintf("%s#%d", name, idx)
 	fail := func(kind, obs, exp string) {
 		tail := log
 		if len(tail) > 30 {
@@ -1308,7 +1412,7 @@ func (m *mon) history(idx int) {
 		case op < 4:
 			var args []int
 			for j := rg.Intn(5); j >= 0; j-- {
-				x := rg.Intn(span+4) - 2
+				x := val()
 				args = append(args, x)
 				if rg.Bool(0.3) {
 					args = append(args, x)
@@ -1322,13 +1426,13 @@ func (m *mon) history(idx int) {
 			}
 			c.Obs("history:Add", 1)
 		case op < 7:
-			x := rg.Intn(span+4) - 2
+			x := val()
 			log = append(log, fmt.Sprintf("Remove(%d)", x))
 			pi = c.Call(key+"|Remove", func() { s.Remove(x) })
 			delete(model, x)
 			c.Obs("history:Remove", 1)
 		default:
-			b := randSet(rg, 6, span)
+			b := set(6)
 			eb := embed(b, rg.Intn(2))
 			log = append(log, fmt.Sprintf("Union(%v)[cap-len=%d]", b, cap(s)-len(s)))
 			pi = c.Call(key+"|Union", func() { s.Union(eb.s) })
@@ -1342,6 +1446,9 @@ func (m *mon) history(idx int) {
 			}
 		}
 		c.Eval(1)
+		if wide {
+			spreadOf(s).note(c, "history")
+		}
 		if pi != nil {
 			fail("panic|"+engine.SiteNoLine(pi.Site), pi.String(), show(model.Sorted()))
 			return
@@ -1358,7 +1465,7 @@ func (m *mon) history(idx int) {
 			}
 		}
 		if st%7 == 3 {
-			t := sortints.SortedInts(randSet(rg, 8, span))
+			t := sortints.SortedInts(set(8))
 			var r sortints.SortedInts
 			var name string
 			var want refset.Set
@@ -1396,7 +1503,7 @@ func (m *mon) history(idx int) {
 			bys = append(bys, bystander{name, r, append([]int(nil), r...)})
 		}
 	}
-	c.NT("history", idx, c.Seed())
+	c.NT(name, idx, c.Seed())
 }
 
 func sortUnits(c *engine.Ctx) {
